@@ -80,3 +80,20 @@ Theorem C05_full_segment_tuplets : forall idx sg cleared, (1 <= idx <= 5)%nat ->
   = tuplets_of_set idx (primes_between (k_low sg + 7) (k_low sg + 30 * k_size sg + 1)).
 Proof. exact full_segment_tuplets. Qed.
 Print Assumptions C05_full_segment_tuplets.
+
+(** bit level, whole run: the byte arrays the model kernel computes segment by segment (all ones AND the unset masks of the
+    cross-off AND the end masks unsetSmaller / unsetLarger), concatenated, have exactly the primes of [start, stop] as the
+    numbers of their set bits, and counting / printing k-tuplets over them byte by byte finds exactly the constellations of
+    those primes - for every configuration and interval.  (The implementation's sieve bytes are compared with these arrays
+    byte for byte: BYTES / kbytes.) *)
+From PS Require Import Model.EratGeom Proofs.KernelTopP Proofs.BytesTopP.
+Theorem C05_kernel_bytes_spec : forall l1 maxKB start stop fuelg fuel l result,
+  16 <= maxKB -> maxKB <= 8192 -> 7 <= start -> start <= stop -> stop <= MAX64 ->
+  segments fuelg l1 maxKB start stop = Some l ->
+  sieve_loop fuel eratSmallSteps stop (map to_kseg l) (primes_between 7 (N.sqrt stop)) [] = Some result ->
+  let low0 := a_segLow (initAlgorithms l1 maxKB start stop) in
+  seg_numbers low0 (run_bytes start stop result) = primes_between start stop /\
+  forall idx, (1 <= idx <= 5)%nat ->
+    segment_tuplets (nth idx kBitmasks []) low0 (run_bytes start stop result) = tuplets_of_set idx (primes_between start stop).
+Proof. exact kernel_bytes_spec. Qed.
+Print Assumptions C05_kernel_bytes_spec.
